@@ -332,12 +332,23 @@ func runC08(c *Ctx, r *Report) {
 			}
 			nm++
 			hasSort := false
-			ast.Inspect(call.Args[0], func(m ast.Node) bool {
-				if id, ok := m.(*ast.Ident); ok && id.Name == "KeySortMode_RFC7049" {
-					hasSort = true
-				}
-				return true
-			})
+			var scan func(e ast.Expr, depth int)
+			scan = func(e ast.Expr, depth int) {
+				ast.Inspect(e, func(m ast.Node) bool {
+					if id, ok := m.(*ast.Ident); ok {
+						if id.Name == "KeySortMode_RFC7049" {
+							hasSort = true
+						} else if v, isVar := p.ObjOf(fn, id).(*types.Var); isVar && !v.IsField() && depth < 3 {
+							// the atlas (or its options) held in a local first
+							if def := p.SoleDef(fn, v); def != nil {
+								scan(def, depth+1)
+							}
+						}
+					}
+					return true
+				})
+			}
+			scan(call.Args[0], 0)
 			r.Check(hasSort, "R-C08.3", r.Key("R-C08.3", fn, cf.Name(), ""), call.Pos(), "marshaller built with RFC7049 (canonical) key sorting", cf.Name()+" is built without RFC7049 key sorting: map keys are emitted in a non-canonical order")
 			return true
 		})
